@@ -4,6 +4,7 @@ import (
 	"fmt"
 	"reflect"
 	"runtime"
+	"sort"
 	"strings"
 	"sync"
 	"time"
@@ -65,12 +66,20 @@ func kindSuffix(k string) string { return k }
 
 // c18Op is one step of an operation sequence.
 type c18Op struct {
-	Op   string `json:"op"` // Append Prepend Insert Set Remove Swap ElemSet | FSet FClear
+	Op   string `json:"op"` // Append Prepend Insert Set Remove Swap ElemSet Sort | FSet FClear
 	I, J int    `json:"i,j"`
 	Val  kval   `json:"val"`
+	// Generic selects the kind-agnostic entry point for the value: the
+	// <op>Type(vocab.Type) error methods for a type value, SetLanguage for a
+	// language map on an element.
+	Generic bool `json:"generic,omitempty"`
 }
 
 func (o c18Op) String() string {
+	if o.Generic {
+		o.Generic = false
+		return "generic:" + o.String()
+	}
 	switch o.Op {
 	case "Append", "Prepend", "FSet":
 		return fmt.Sprintf("%s(%s)", o.Op, o.Val.Kind)
@@ -81,7 +90,7 @@ func (o c18Op) String() string {
 	case "Swap":
 		return fmt.Sprintf("Swap(%d,%d)", o.I, o.J)
 	}
-	return o.Op
+	return o.Op // Sort
 }
 
 type c18Case struct {
@@ -95,6 +104,23 @@ type c18Case struct {
 }
 
 // callKind invokes <op><Kind>(args..., v) with the single-kind fallback <op>(args..., v).
+// callGeneric invokes the kind-agnostic entry point: <op>Type(args..., t) error
+// for a type value, SetLanguage("en", s) for a one-entry language map.
+func callGeneric(target reflect.Value, op string, v kval, args ...interface{}) (ok bool, pan interface{}) {
+	if v.Kind == "RDFLangString" {
+		m := v.Go.(map[string]string)
+		for l, s := range m {
+			_, ok, pan = callM(target, "SetLanguage", l, s)
+		}
+		return ok, pan
+	}
+	out, ok, pan := callM(target, op+"Type", append(args, v.Go)...)
+	if ok && pan == nil && len(out) == 1 && !isNil(out[0]) {
+		return true, fmt.Sprintf("%sType refused an admissible %s: %v", op, v.Kind, out[0].Interface())
+	}
+	return ok, pan
+}
+
 func callKind(target reflect.Value, op string, kind string, single bool, args ...interface{}) (ok bool, pan interface{}) {
 	name := op + kindSuffix(kind)
 	if kind == "IRI" {
@@ -135,6 +161,21 @@ func elemMatches(el reflect.Value, want kval) string {
 	lv.Kind = wk
 	if ok, why := lv.matches(g); !ok {
 		return why
+	}
+	if wk == "RDFLangString" {
+		if m, isMap := want.Go.(map[string]string); isMap {
+			for l, s := range m {
+				if o, ok, p := callM(el, "HasLanguage", l); ok && (p != nil || !o[0].Bool()) {
+					return "HasLanguage(" + l + ") is false for a stored language"
+				}
+				if o, ok, p := callM(el, "GetLanguage", l); ok && (p != nil || o[0].String() != s) {
+					return "GetLanguage(" + l + ") does not return the stored text"
+				}
+			}
+			if o, ok, p := callM(el, "HasLanguage", "zz-absent"); ok && (p != nil || o[0].Bool()) {
+				return "HasLanguage is true for a language that was not stored"
+			}
+		}
 	}
 	return ""
 }
@@ -249,20 +290,55 @@ func applyOp(pv reflect.Value, model []kval, op c18Op, single bool) ([]kval, str
 	var pan interface{}
 	switch op.Op {
 	case "Append":
-		ok, pan = callKind(pv, "Append", op.Val.Kind, false, op.Val.Go)
+		if op.Generic {
+			ok, pan = callGeneric(pv, "Append", op.Val)
+		} else {
+			ok, pan = callKind(pv, "Append", op.Val.Kind, false, op.Val.Go)
+		}
 		model = append(model, op.Val)
 	case "Prepend":
-		ok, pan = callKind(pv, "Prepend", op.Val.Kind, false, op.Val.Go)
+		if op.Generic {
+			ok, pan = callGeneric(pv, "Prepend", op.Val)
+		} else {
+			ok, pan = callKind(pv, "Prepend", op.Val.Kind, false, op.Val.Go)
+		}
 		model = append([]kval{op.Val}, model...)
 	case "Insert":
-		ok, pan = callKind(pv, "Insert", op.Val.Kind, false, op.I, op.Val.Go)
+		if op.Generic {
+			ok, pan = callGeneric(pv, "Insert", op.Val, op.I)
+		} else {
+			ok, pan = callKind(pv, "Insert", op.Val.Kind, false, op.I, op.Val.Go)
+		}
 		model = append(model, kval{})
 		copy(model[op.I+1:], model[op.I:])
 		model[op.I] = op.Val
 	case "Set":
-		ok, pan = callKind(pv, "Set", op.Val.Kind, single, op.I, op.Val.Go)
+		if op.Generic {
+			ok, pan = callGeneric(pv, "Set", op.Val, op.I)
+		} else {
+			ok, pan = callKind(pv, "Set", op.Val.Kind, single, op.I, op.Val.Go)
+		}
 		model = append([]kval{}, model...)
 		model[op.I] = op.Val
+	case "Sort":
+		si, isSort := pv.Interface().(sort.Interface)
+		if !isSort {
+			return model, "mutator missing: Sort (the property is not a sort.Interface)"
+		}
+		ok = true
+		func() {
+			defer func() { pan = recover() }()
+			sort.Sort(si)
+		}()
+		if pan == nil {
+			// sorting is a series of Swaps: the content must be a
+			// permutation of the model; which one is the library's choice
+			var why string
+			model, why = permuteLike(pv, model)
+			if why != "" {
+				return model, why
+			}
+		}
 	case "Remove":
 		_, ok, pan = callM(pv, "Remove", op.I)
 		model = append(append([]kval{}, model[:op.I]...), model[op.I+1:]...)
@@ -275,7 +351,11 @@ func applyOp(pv reflect.Value, model []kval, op c18Op, single bool) ([]kval, str
 		if !okA || p != nil {
 			return model, fmt.Sprintf("At(%d) failed", op.I)
 		}
-		ok, pan = callKind(concrete(o[0]), "Set", op.Val.Kind, single, op.Val.Go)
+		if op.Generic {
+			ok, pan = callGeneric(concrete(o[0]), "Set", op.Val)
+		} else {
+			ok, pan = callKind(concrete(o[0]), "Set", op.Val.Kind, single, op.Val.Go)
+		}
 		model = append([]kval{}, model...)
 		model[op.I] = op.Val
 	}
@@ -286,6 +366,35 @@ func applyOp(pv reflect.Value, model []kval, op c18Op, single bool) ([]kval, str
 		return model, fmt.Sprintf("mutator panicked: %s: %v", op.String(), pan)
 	}
 	return model, ""
+}
+
+// permuteLike reorders the model the way the property's elements are now
+// ordered, matching each element to an unused model entry of equal content.
+func permuteLike(pv reflect.Value, model []kval) ([]kval, string) {
+	used := make([]bool, len(model))
+	out := make([]kval, 0, len(model))
+	lo, ok, p := callM(pv, "Len")
+	if !ok || p != nil || int(lo[0].Int()) != len(model) {
+		return model, fmt.Sprintf("Len=%v want %d after Sort", lo, len(model))
+	}
+	for i := range model {
+		o, ok, p := callM(pv, "At", i)
+		if !ok || p != nil || isNil(o[0]) {
+			return model, fmt.Sprintf("At(%d) failed after Sort: %v", i, p)
+		}
+		found := false
+		for j := range model {
+			if !used[j] && elemMatches(concrete(o[0]), model[j]) == "" {
+				used[j], found = true, true
+				out = append(out, model[j])
+				break
+			}
+		}
+		if !found {
+			return model, fmt.Sprintf("At(%d) after Sort holds a value that was not in the sequence (or one too often)", i)
+		}
+	}
+	return out, ""
 }
 
 type c18 struct {
@@ -352,6 +461,18 @@ func (c *c18) runSeq(cs c18Case) {
 		}
 	}
 	r.Count("nonfunctional.ops_checked", len(cs.Ops))
+	for _, o := range cs.Ops {
+		if o.Generic {
+			if o.Val.Kind == "RDFLangString" {
+				r.Count("nonfunctional.ops.element_SetLanguage", 1)
+			} else {
+				r.Count("nonfunctional.ops.generic_"+o.Op+"Type", 1)
+			}
+		}
+		if o.Op == "Sort" {
+			r.Count("nonfunctional.ops.Sort", 1)
+		}
+	}
 	if len(cs.Ops) > 0 {
 		var sb strings.Builder
 		for _, o := range cs.Ops {
@@ -362,7 +483,7 @@ func (c *c18) runSeq(cs c18Case) {
 }
 
 func featureOf(w string) string {
-	for _, k := range []string{"forward walk", "backward walk", "Len=", "At(", "Serialize", "Empty", "End", "mutator missing", "mutator panicked", "Next failed", "Prev failed"} {
+	for _, k := range []string{"forward walk", "backward walk", "Len=", "At(", "Serialize", "Empty", "End", "mutator missing", "mutator panicked", "Next failed", "Prev failed", "Type refused", "HasLanguage", "GetLanguage"} {
 		if strings.Contains(w, k) {
 			return strings.TrimSuffix(k, "=")
 		}
@@ -454,7 +575,12 @@ func randomSeq(P string, g *prng.R, maxLen int) c18Case {
 		v := mkVal(kinds[g.Intn(len(kinds))], 1000+s)
 		var op c18Op
 		for {
-			switch g.Intn(7) {
+			switch g.Intn(8) {
+			case 7:
+				if n < 2 || s%5 != 0 {
+					continue
+				}
+				op = c18Op{Op: "Sort"}
 			case 0:
 				op = c18Op{Op: "Append", Val: v}
 			case 1:
@@ -490,6 +616,13 @@ func randomSeq(P string, g *prng.R, maxLen int) c18Case {
 		case "Remove":
 			n--
 		}
+		// a third of the type values enter through the kind-agnostic
+		// <op>Type method; language maps on an element through SetLanguage
+		if op.Op != "Remove" && op.Op != "Swap" && op.Op != "Sort" && g.Chance(1, 3) {
+			if O.Types[v.Kind] != nil || (v.Kind == "RDFLangString" && op.Op == "ElemSet") {
+				op.Generic = true
+			}
+		}
 		cs.Ops = append(cs.Ops, op)
 	}
 	return cs
@@ -513,8 +646,16 @@ func (c *c18) runFunctional(P string, kinds []string, seq []int) {
 			cur = nil
 		} else {
 			v := mkVal(kinds[ki], 10+step)
-			text = append(text, "Set("+v.Kind+")")
-			ok, p := callKind(pv, "Set", v.Kind, single, v.Go)
+			generic := step%2 == 1 && (O.Types[v.Kind] != nil || v.Kind == "RDFLangString")
+			var ok bool
+			var p interface{}
+			if generic {
+				text = append(text, "generic:Set("+v.Kind+")")
+				ok, p = callGeneric(pv, "Set", v)
+			} else {
+				text = append(text, "Set("+v.Kind+")")
+				ok, p = callKind(pv, "Set", v.Kind, single, v.Go)
+			}
 			if !ok {
 				w = "setter missing for " + v.Kind
 			} else if p != nil {
@@ -550,6 +691,11 @@ func (c *c18) runFunctional(P string, kinds []string, seq []int) {
 		}
 	}
 	r.Count("functional.ops_checked", len(seq))
+	for _, t := range text {
+		if strings.HasPrefix(t, "generic:") {
+			r.Count("functional.ops.generic_SetType_or_SetLanguage", 1)
+		}
+	}
 	r.NonTrivial(P + "|" + strings.Join(text, ","))
 }
 
